@@ -24,7 +24,7 @@ def random_session(rnd, maxlen):
     weights = [(1, 4), (2, 4), (3, 3), (4, 2), (5, 1)]
     pool = [v for v, wt in weights for _ in range(wt)]
     s = [rnd.choice(pool) for _ in range(n)]
-    extra = rnd.choice([0, 1, 1, 2, 5])
+    extra = rnd.choice([0, 1, 1, 2, 5, -1, -2, -3])     # negative: the declared extent ends inside the string
     buf = s + [0, 7, 7]
     dmax0 = max(1, n + extra)
     if n >= 1 and rnd.random() < 0.1:
@@ -113,6 +113,8 @@ def run(prop, tier, seed, workdir):
         samples=[dict(buf=s[0], dmax=s[1], delims=s[2]) for s in (sessions[0], sessions[len(sessions) // 2], sessions[-1])],
         model_sessions=nmodel, exhaustive=(tier != "quick" or nmodel <= 12000),
         checker_cmd="tlc Tok.tla (INVARIANTS C14_*); tlc TraceTok.tla")
+    from . import testtrace
+    testtrace.run_tok(res, workdir)
     res.assumptions = ["model bound: strings of length <= %d; longer strings only by seeded random sessions" % L,
                        "delimiter strings longer than 2 only in the random sessions"]
     return res
